@@ -439,6 +439,7 @@ pub fn line_field_edit(prop: &'static str) -> Space {
 /// checksum field itself is the target) — arbitrary short contents in every field position.
 pub fn line_field_short(prop: &'static str, maxlen: u32) -> Space {
     let a = SIGMA0.len() as u64;
+    let maxlen = maxlen + 1;
     let mut starts = Vec::new();
     let mut per = 0u64;
     for len in 0..=maxlen {
@@ -447,13 +448,13 @@ pub fn line_field_short(prop: &'static str, maxlen: u32) -> Space {
     }
     Space::new(
         &format!("LINE-FIELD-SHORT({})", maxlen),
-        &format!("8 field slots (address, count, number, id, channel, payload, fill, checksum digits) x every string of length 0..={} over the 12 structural symbols x 2 templates x decode", maxlen),
-        per * 8 * 2 * 2,
+        &format!("9 slots (address, count, number, id, channel, payload, fill, checksum digits, PREFIX before the start delimiter) x every string of length 0..={} over the 12 structural symbols x 2 templates x decode", maxlen + 1),
+        per * 9 * 2 * 2,
         move |i, l| {
             let mut r = Radix(i);
             let decode = r.take(2) == 1;
             let tmpl = r.take(2);
-            let slot = r.take(8);
+            let slot = r.take(9);
             let k = r.0;
             let li = match starts.binary_search(&k) {
                 Ok(x) => x,
@@ -493,10 +494,16 @@ pub fn line_field_short(prop: &'static str, maxlen: u32) -> Space {
                     m.fill = content;
                     m.render()
                 }
-                _ => {
+                7 => {
                     let mut t = vec![b'*'];
                     t.extend_from_slice(&content);
                     m.render_with(&t)
+                }
+                _ => {
+                    // anything before the start delimiter: leading garbage, one or several tag blocks
+                    let mut t = content;
+                    t.extend_from_slice(&m.render());
+                    t
                 }
             };
             judge_line(l, &line, decode, prop);
@@ -675,7 +682,7 @@ pub fn line_cksum(prop: &'static str) -> Space {
 
 /// LINE-GRAMMAR: complete product of per-field menus.
 pub fn line_grammar(prop: &'static str, wide: bool) -> Space {
-    let starts_: Vec<&[u8]> = vec![b"!", b"$", b"\\t\\!", b"\\\\!", b"\\t!", b"x!", b""];
+    let starts_: Vec<&[u8]> = vec![b"!", b"$", b"\\t\\!", b"\\\\!", b"\\t!", b"x!", b"", b"\\a\\\\b\\!", b"\\t\\$"];
     let nums: Vec<&[u8]> = if wide {
         vec![b"0", b"1", b"2", b"3", b"9", b"09", b"10", b"99", b"255", b"0255", b"256", b"999", b"", b"1a", b"-1", b"+1", b" 1"]
     } else {
@@ -891,6 +898,7 @@ pub fn c02(tier: Tier) -> Vec<Space> {
         line_seeds("C02"),
         line_field_short("C02", if tier == Tier::Quick { 3 } else { 4 }),
         line_lengths("C02"),
+        line_grammar("C02", false),
     ];
     if tier == Tier::Thorough {
         v.push(line_mut2("C02", 10));
